@@ -288,10 +288,9 @@ func c11r2(c *an.Ctx) {
 		return len(p.Fields) >= 2 && p.Last().Origin() == idStream.Origin() && nameOf(p.Fields[len(p.Fields)-2]) == "ID"
 	}
 	n := 0
-	for _, cs := range an.CallsTo(sv, true, addPairs) {
-		n++
+	idEquality := func(guards []an.Guard) ssa.Value {
 		var metaID ssa.Value
-		for _, g := range an.GuardsOf(cs.Instr.Block()) {
+		for _, g := range guards {
 			b, ok := g.Cond.(*ssa.BinOp)
 			if !ok || (b.Op != token.EQL && b.Op != token.NEQ) {
 				continue
@@ -299,10 +298,29 @@ func c11r2(c *an.Ctx) {
 			if g.True != (b.Op == token.EQL) {
 				continue
 			}
-			if isPktStream(b.Y) {
+			// the packet's id may have been parked in a local (struct field) on the way: look through unique stores
+			if isPktStream(b.Y) || isPktStream(an.Resolve(b.Y)) {
 				metaID = b.X
-			} else if isPktStream(b.X) {
+			} else if isPktStream(b.X) || isPktStream(an.Resolve(b.X)) {
 				metaID = b.Y
+			}
+		}
+		return metaID
+	}
+	for _, cs := range an.CallsTo(sv, true, addPairs) {
+		n++
+		// the call itself is behind metaID == pkt.ID.Stream, or every non-nil map that can reach it is
+		// (attaching a nil map attaches nothing)
+		metaID := idEquality(an.GuardsOf(cs.Instr.Block()))
+		if metaID == nil {
+			srcs := an.SourcesWithGuards(an.Arg(cs.Common(), 1), cs.Instr.Block())
+			for i, src := range srcs {
+				id := idEquality(src.Guards)
+				if id == nil || (i > 0 && metaID != nil && an.Resolve(id) != an.Resolve(metaID)) {
+					metaID = nil
+					break
+				}
+				metaID = id
 			}
 		}
 		inInvoke := guardedByKind(cs.Instr.Block(), kinds["KindInvoke"], true)
@@ -331,6 +349,27 @@ func c11r2(c *an.Ctx) {
 					if r := an.Resolve(x); r != x {
 						walk(r)
 						return
+					}
+					// a local (or a field of a local struct) written on several paths: every stored value counts
+					if u, isU := x.(*ssa.UnOp); isU && u.Op == token.MUL {
+						var stored []ssa.Value
+						found := false
+						switch ad := u.X.(type) {
+						case *ssa.Alloc:
+							stored, found = an.ReachingStores(ad, u), true
+						case *ssa.FieldAddr:
+							if al, isAl := ad.X.(*ssa.Alloc); isAl {
+								stored, found = an.ReachingFieldStores(al, ad.Field, u), true
+							}
+						}
+						if found && len(stored) > 0 {
+							for _, sv := range stored {
+								if sv != nil {
+									walk(sv)
+								}
+							}
+							return
+						}
 					}
 					in, _ := x.(ssa.Instruction)
 					if good(x) && in != nil && guardedByKind(in.Block(), kinds["KindInvokeMetadata"], true) {
